@@ -356,6 +356,7 @@ structure SyncState where
   deployAvail : Bool      -- r.deployInputAvailable
   enabledAvail : Bool     -- r.enabledInputAvailable
   runAvail : Bool         -- r.runInputAvailable
+  stopAvail : Bool        -- r.stopInputAvailable
   deployOcc : Nat         -- len(r.deployInput)
   enabledOcc : Nat        -- len(r.enabledInput)
   runOcc : Nat            -- len(r.runInput)
@@ -379,6 +380,7 @@ def syncInit : SyncState :=
   { deployAvail := false
     enabledAvail := false
     runAvail := false
+    stopAvail := false
     deployOcc := 0
     enabledOcc := 0
     runOcc := 0
@@ -476,8 +478,10 @@ def syncStep (handler : Bool) (s : SyncState) : Act → Outcome
       .next { s with runAvail := true, runOcc := s.runOcc + 1 }
     else .next { s with runAvail := true }          -- `select default`
   | .provideCancelled truthy =>
-    if !truthy then .next s
-    else match cancelStep handler s with
+    -- provideCancelledInput: the stop condition is accepted once, whatever its value
+    if s.stopAvail then .refused s
+    else if !truthy then .next { s with stopAvail := true }
+    else match cancelStep handler { s with stopAvail := true } with
       | .ok s' => .next s'
       | .block => .wouldBlock
   | .provideOther => .next s
@@ -562,6 +566,18 @@ def execute (handler : Bool) : SyncState → List Act → Option SyncState
   | s, a :: rest =>
     match syncStep handler s a with
     | .next s' => execute handler s' rest
+    | _ => none
+
+/-- The provider WITHOUT the once-only flag of the stop condition (the code before the stop-once repair): forget that a
+    stop condition was provided. -/
+def forgetStop (s : SyncState) : SyncState := { s with stopAvail := false }
+
+/-- `execute` for the provider without that flag -/
+def executeForgetting (handler : Bool) : SyncState → List Act → Option SyncState
+  | s, [] => some s
+  | s, a :: rest =>
+    match syncStep handler (forgetStop s) a with
+    | .next s' => executeForgetting handler s' rest
     | _ => none
 
 /-- the moves that need no further call from outside: `run()`, the ATP goroutine, timer, returning closers -/
